@@ -22,6 +22,12 @@ func (n Namer) TableName(table string) string {
 	return n.NamingStrategy.TableName(table)
 }
 func (n Namer) ColumnName(table, column string) string {
+	// one yield per parsed model (its key column), inside the window between the
+	// second cache look-up and LoadOrStore: lets two first users of one model
+	// both parse it and race for the store
+	if column == "ID" || column == "Code" || column == "K" {
+		n.y("namer:column")
+	}
 	return n.NamingStrategy.ColumnName(table, column)
 }
 func (n Namer) JoinTableName(joinTable string) string {
